@@ -50,6 +50,8 @@ def catalog(kind, size):
     if kind == 'pda':
         out = [('pda', s) for i, s in pda.pdas(1, 1, 1, 3)]
         out += [('pda', s) for i, s in pda.pdas(2, 1, 1, 3) if i % (101 if size == 'm' else 397) == 5]
+        out += [('pda', s, ('γ', 'Ω')) for i, s in pda.pdas(2, 1, 1, 2) if i % (23 if size == 'm' else 89) == 7]     # stack symbols outside latin-1
+        out += [('pda', s, ('A', 'B', 'AB', '$')) for i, s in pda.multichar_pushpop_family()][:(7 if size == 'm' else 2)]
         return out
     if kind == 'cfg':
         out = [('cfg', s) for i, s in cfg.cfg2() if i % (211 if size == 'm' else 811) == 11]
@@ -71,7 +73,7 @@ def build(item, scheme=None):
     if k == 'nfa':
         return 'nfa', spaces.build_nfa(item[1], scheme or item[2], item[3], 'sparse')
     if k == 'pda':
-        return 'pda', pda.build(item[1])
+        return 'pda', pda.build(item[1], *( [item[2]] if len(item) > 2 else []))
     if k == 'cfg':
         return 'cfg', cfg.to_lib(item[1])
     if k == 're':
@@ -89,8 +91,16 @@ def catalog_for(argkind, size):
 
 
 # ---------------------------------------------------------------- (a) + (d): arguments intact, logging independence
+VERBOSE = [False]
+
+
 def run_op(o, objs, extras):
     f = O.get_fn(o)
+    if VERBOSE[0] and o['fn'] is None and o['name'] != 'epsilon_closure':
+        import inspect
+        if 'verbose' in inspect.signature(f).parameters:     # a diagnostic keyword: part of the logging switch
+            g = f
+            f = lambda *a: g(*a, verbose=True)
     args = []
     it_o = iter(objs)
     it_e = iter(extras)
@@ -147,10 +157,15 @@ def check_op(acc, opname, size, pair_cap, shard, nshard):
             n_inst += 1
             acc.states += 1
             sigs = []
-            for logging in (False, True):
-                objs = [build(it, sch)[1] for it, sch in zip(items, schemes)]
+            for logging in (False, True, 'shared-names'):
+                spaces.KNOBS['intern'] = (logging == 'shared-names')
+                try:
+                    objs = [build(it, sch)[1] for it, sch in zip(items, schemes)]
+                finally:
+                    spaces.KNOBS['intern'] = False
                 before = [O.snap(O.base_kind(k), x) for k, x in zip(objkinds, objs)]
-                GambaTools.enable_logging = logging
+                GambaTools.enable_logging = (logging is True)
+                VERBOSE[0] = (logging is True)
                 try:
                     if opname.endswith('[bad]'):
                         try:                      # an ill-formed text: raising is the expected behaviour
@@ -162,6 +177,7 @@ def check_op(acc, opname, size, pair_cap, shard, nshard):
                         ok, r = core.lib_call(acc, opname, dict(inst, logging=logging), run_op, o, objs, extras, repro=rp)
                 finally:
                     GambaTools.enable_logging = False
+                    VERBOSE[0] = False
                 acc.transitions += 1
                 if not ok:
                     sigs.append(None)
@@ -181,6 +197,8 @@ def check_op(acc, opname, size, pair_cap, shard, nshard):
             acc.validated += 1
             if sigs[0] is not None and sigs[1] is not None and sigs[0] != sigs[1]:
                 acc.viol(opname, 'result depends on the logging switch', inst, repro=rp, observed={'logging_off': str(sigs[0])[:200], 'logging_on': str(sigs[1])[:200]})
+            if sigs[0] is not None and sigs[2] is not None and sigs[0] != sigs[2]:
+                acc.viol(opname, 'result differs between equal arguments (names as distinct str objects / as one shared object)', inst, repro=rp, observed={'distinct_objects': str(sigs[0])[:200], 'shared_objects': str(sigs[2])[:200]})
     acc.c['instances[' + opname + ']'] += n_inst
     if n_inst:
         acc.nontrivial += 1
@@ -210,15 +228,22 @@ def one_op(acc, opname, items, extras):
     schemes = ['s', 'r'] if len(items) == 2 else [None]
     from gambatools.global_settings import GambaTools
     sigs = []
-    for logging in (False, True):
-        objs = [build(it, sch)[1] for it, sch in zip(items, schemes)]
+    for logging in (False, True, 'shared-names'):
+        spaces.KNOBS['intern'] = (logging == 'shared-names')
+        try:
+            objs = [build(it, sch)[1] for it, sch in zip(items, schemes)]
+        finally:
+            spaces.KNOBS['intern'] = False
         before = [O.snap(O.base_kind(k), x) for k, x in zip(objkinds, objs)]
-        GambaTools.enable_logging = logging
+        GambaTools.enable_logging = (logging is True)
+        VERBOSE[0] = (logging is True)
         try:
             ok, r = core.lib_call(acc, opname, {'op': opname, 'logging': logging}, run_op, o, objs, extras)
         finally:
             GambaTools.enable_logging = False
+            VERBOSE[0] = False
         if not ok:
+            sigs.append(None)
             continue
         after = [O.snap(O.base_kind(k), x) for k, x in zip(objkinds, objs)]
         if after != before:
@@ -227,7 +252,10 @@ def one_op(acc, opname, items, extras):
             sigs.append(O.signature(o['res'], r))
         except Exception as e:
             acc.viol(opname, 'result is not a valid object of its kind', {'op': opname}, observed=core.describe_exc(e))
-    if len(sigs) == 2 and sigs[0] != sigs[1]:
+            sigs.append(None)
+    if sigs[0] is not None and sigs[2] is not None and sigs[0] != sigs[2]:
+        acc.viol(opname, 'result differs between equal arguments (names as distinct str objects / as one shared object)', {'op': opname}, observed=[str(s)[:200] for s in (sigs[0], sigs[2])])
+    if sigs[0] is not None and sigs[1] is not None and sigs[0] != sigs[1]:
         acc.viol(opname, 'result depends on the logging switch', {'op': opname}, observed=[str(s)[:200] for s in sigs])
 
 
